@@ -469,8 +469,7 @@ def extra(uni, tier, seed):
                     f"{mod.ID}:{ob.name}", False, f"solver: {r}",
                     kind=f"VC of {suffix} (contract of {mod.ID})",
                     undecided=(r != "sat"),
-                    replay={"confirmed": False, "obligation": ob.name,
-                            "solver": r}))
+                    replay=_never_equal_replay(ob.name, r)))
         for k, v in u2.repo.used.items():
             uni.repo.used[k] = v
         out += bad
@@ -481,3 +480,14 @@ def extra(uni, tier, seed):
             kind=f"VCs of the {suffix} contract (shared with {mod.ID})",
             count=n_ok, undecided=bool(rep.unsupported)))
     return out
+
+
+def _never_equal_replay(obname, solver):
+    rp = {"confirmed": False, "obligation": obname, "solver": solver}
+    if "never_equal" in obname:
+        from realise import C17 as R17
+        got = R17.never_equal_cases()
+        if got.get("confirmed"):
+            got.update({"obligation": obname, "solver": solver})
+            return got
+    return rp
